@@ -64,8 +64,9 @@ def isa_encode(name, rd, rs1, rs2, imm):
 
 def isa_run(mem, next_input, fuel):
   """mem: bytearray(1MB), modified in place; next_input(rd) -> value or None (FIFO empty).
+  Accelerator CSRs 0x7E0..0x7FF follow the tutorial's NullXcel.py: a single register xr0 (0 at power-on) behind every number.
   Returns dict(stop, icount, pc, out, regs, stores, inputs)."""
-  R = [0] * 32; pc = TEXT; out = []; stores = []; inputs = []; n = 0; stop = 'fuel'; nops = 0; mix = {}
+  R = [0] * 32; pc = TEXT; out = []; stores = []; inputs = []; n = 0; stop = 'fuel'; nops = 0; mix = {}; xr0 = 0
   ok = lambda a: a % 4 == 0 and a + 4 <= (1 << 20)
   while n < fuel:
     if not ok(pc): stop = 'undefined'; break
@@ -89,16 +90,19 @@ def isa_run(mem, next_input, fuel):
       if R[rs1] != R[rs2]:
         npc = (pc + imm) & M32; k = 'taken_back' if imm < 0 else 'taken_fwd'; mix[k] = mix.get(k, 0) + 1
     elif name == 'csrr':
-      if imm != 0xFC0: stop = 'undefined'; break
-      val = next_input(rd)
-      if val is None: stop = 'input-empty'; break
-      inputs.append(val)
+      if 0x7E0 <= imm <= 0x7FF: val = xr0; mix['xcel_rd'] = mix.get('xcel_rd', 0) + 1     # NullXcel: one register, address ignored
+      elif imm != 0xFC0: stop = 'undefined'; break
+      else:
+        val = next_input(rd)
+        if val is None: stop = 'input-empty'; break
+        inputs.append(val)
     elif name == 'csrw':
-      if imm != 0x7C0: stop = 'undefined'; break
-      out.append(R[rs1])
+      if 0x7E0 <= imm <= 0x7FF: xr0 = R[rs1]; mix['xcel_wr'] = mix.get('xcel_wr', 0) + 1
+      elif imm != 0x7C0: stop = 'undefined'; break
+      else: out.append(R[rs1])
     if val is not None and rd != 0: R[rd] = val
     pc = npc; n += 1
-  return dict(stop=stop, icount=n, pc=pc, out=out, regs=R, stores=stores, inputs=inputs, nops=nops, mix=mix)
+  return dict(stop=stop, icount=n, pc=pc, out=out, regs=R, stores=stores, inputs=inputs, nops=nops, mix=mix, xr0=xr0)
 
 #=========================================================================
 # Random terminating programs
@@ -149,9 +153,12 @@ class Gen:
 
   def one(s, depth):
     rng = s.rng
-    k = rng.choices(['alu', 'addi', 'lw', 'sw', 'swlw', 'bump', 'save', 'csrr', 'csrw', 'nop', 'skip', 'loop', 'lwuse', 'alias'],
-                    [30, 12, 10, 9, 7, 2, 2, 5, 6, 2, 7, 7 if depth < 2 else 0, 7, 7])[0]
+    k = rng.choices(['alu', 'addi', 'lw', 'sw', 'swlw', 'bump', 'save', 'csrr', 'csrw', 'nop', 'skip', 'loop', 'lwuse', 'alias', 'xw', 'xr', 'xmix'],
+                    [30, 12, 10, 9, 7, 2, 2, 5, 6, 2, 7, 7 if depth < 2 else 0, 7, 7, 3, 3, 5])[0]
     if k == 'alias': s.alias()
+    elif k == 'xw': s.emit('csrw', 0, s.src(), 0, s.xcsr())
+    elif k == 'xr': s.emit('csrr', s.dst(), 0, 0, s.xcsr())
+    elif k == 'xmix': s.xmix()
     elif k == 'alu': s.emit(rng.choice(['add', 'and', 'sll', 'srl']), s.dst(), s.src(), s.src())
     elif k == 'addi': s.emit('addi', s.dst(), s.src(), 0, rng.choice(IMMS) if rng.random() < 0.6 else rng.randint(-2048, 2047))
     elif k == 'lw':
@@ -202,6 +209,52 @@ class Gen:
       s.emit('bne', 0, c, 0, L)
       s.free_counters.append(c)
       if rng.random() < 0.5: s.shadow()
+
+  def xcsr(s):
+    return s.rng.choice([0x7E0, 0x7E0, 0x7E1, 0x7E5, 0x7F0, 0x7FE, 0x7FF]) if s.rng.random() < 0.8 else s.rng.randint(0x7E0, 0x7FF)
+
+  def xmix(s):
+    """accelerator accesses right next to manager traffic, loads/stores and their own consumers (the accelerator register
+    holds a distinctive non-zero value first)"""
+    rng = s.rng; G = G_REGS
+    if rng.random() < 0.8:
+      v = rng.choice(G); s.emit('addi', v, rng.choice([0, v]), 0, rng.choice([0x5a5, -0x123, 0x7ff, 77]))
+      s.emit('csrw', 0, v, 0, s.xcsr())
+    d = s.dst() or 9
+    c = rng.choice(['p2m_xr', 'p2m_xr', 'p2m_xr', 'm2p_xr', 'xr_m2p', 'lw_xr', 'sw_xr', 'xw_xr', 'xr_use', 'xr_p2m', 'xw_p2m_xr'])
+    if c == 'p2m_xr':                                             # sink busy with earlier messages when the read's response returns
+      for _ in range(rng.choice([1, 2, 2, 3])): s.emit('csrw', 0, s.src(), 0, 0x7C0)
+      s.emit('csrr', d, 0, 0, s.xcsr())
+    elif c == 'm2p_xr': s.emit('csrr', s.dst(), 0, 0, 0xFC0); s.emit('csrr', d, 0, 0, s.xcsr())
+    elif c == 'xr_m2p': s.emit('csrr', d, 0, 0, s.xcsr()); s.emit('csrr', s.dst(), 0, 0, 0xFC0)
+    elif c == 'lw_xr': s.emit('lw', s.dst(), rng.choice(P_REGS), 0, 4 * rng.randint(-6, 6)); s.emit('csrr', d, 0, 0, s.xcsr())
+    elif c == 'sw_xr':
+      s.emit('sw', 0, rng.choice(P_REGS), s.src(), 4 * rng.randint(-6, 6)); s.emit('csrr', d, 0, 0, s.xcsr())
+      s.emit('sw', 0, rng.choice(P_REGS), d, 4 * rng.randint(-6, 6))
+    elif c == 'xw_xr': s.emit('csrw', 0, s.src(), 0, s.xcsr()); s.emit('csrr', d, 0, 0, s.xcsr())
+    elif c == 'xr_use':                                           # accelerator-read-use hazard
+      s.emit('csrr', d, 0, 0, s.xcsr())
+      s.emit(rng.choice(['add', 'and', 'sll', 'srl']), s.dst(), *rng.choice([(d, s.src()), (s.src(), d)]))
+    elif c == 'xr_p2m': s.emit('csrr', d, 0, 0, s.xcsr()); s.emit('csrw', 0, d, 0, 0x7C0)
+    else:
+      s.emit('csrw', 0, s.src(), 0, s.xcsr()); s.emit('csrw', 0, s.src(), 0, 0x7C0); s.emit('csrw', 0, s.src(), 0, 0x7C0)
+      s.emit('csrr', d, 0, 0, s.xcsr())
+    if rng.random() < 0.7: s.emit('csrw', 0, d, 0, 0x7C0)
+
+  def xcel_program(s):
+    """program made of accelerator patterns between short stretches of ordinary code"""
+    rng = s.rng
+    for p in P_REGS: s.emit('csrr', p, 0, 0, 0xFC0)
+    for r in G_REGS[:12]: s.emit('addi', r, 0, 0, 32 + r)
+    while s.count < s.size:
+      s.xmix()
+      for _ in range(rng.choice([0, 0, 1, 2])): s.one(2)
+    s.epilogue()
+    return s.items
+
+  def epilogue(s):
+    for r in range(1, 32): s.emit('csrw', 0, r, 0, 0x7C0)        # dump the register file ...
+    s.emit('csrr', 5, 0, 0, 0x7E0); s.emit('csrw', 0, 5, 0, 0x7C0)   # ... and the accelerator register
 
   def filler(s, G):
     rng = s.rng; c = rng.random()
@@ -260,7 +313,7 @@ class Gen:
     while s.count < s.size:
       s.alias()
       for _ in range(rng.choice([0, 0, 1, 3, 5])): s.items.append(('nop',)); s.count += 1
-    for r in range(1, 32): s.emit('csrw', 0, r, 0, 0x7C0)
+    s.epilogue()
     return s.items
 
   def shadow(s):
@@ -284,7 +337,7 @@ class Gen:
       if rng.random() < 0.6: s.emit('csrr', rng.choice(G_REGS[:10]), 0, 0, 0xFC0)
       else: s.emit('addi', rng.choice(G_REGS[:10]), 0, 0, rng.choice(IMMS))
     while s.count < s.size: s.one(0)
-    for r in range(1, 32): s.emit('csrw', 0, r, 0, 0x7C0)        # epilogue: dump the register file
+    s.epilogue()
     return s.items
 
 def input_policy(rng):
@@ -341,10 +394,10 @@ def image_words(mem_image):
 
 def gen_program(rng, size, fuel, family='mixed'):
   """rejection-sample a program that the ISA (the direct oracle) defines completely and that terminates.
-  family: 'mixed' (everything) or 'alias' (false-producer patterns only).
+  family: 'mixed' (everything), 'alias' (false-producer patterns only) or 'xcel' (accelerator patterns).
   Returns dict(text, words, inp, insts, ref) with ref = oracle result."""
   for attempt in range(200):
-    g = Gen(rng, size); items = g.alias_program() if family == 'alias' else g.program()
+    g = Gen(rng, size); items = {'alias': g.alias_program, 'xcel': g.xcel_program, 'mixed': g.program}[family]()
     data = [rng.choice(VALS) if rng.random() < 0.3 else rng.getrandbits(32) for _ in range(NDATA)]
     text = to_text(items, data)
     img = assemble(text)
